@@ -306,23 +306,25 @@ class SymDT(object):
         raise TypeError("not a datetime: %r" % (x,))
 
     @staticmethod
-    def fresh(e, name, ylo=1900, yhi=2200, unit_us=1000):
+    def fresh(e, name, ylo=1900, yhi=2200, unit_us=1000, res=None):
         """fresh instant at `unit_us` resolution between 1 Jan ylo and 31 Dec yhi"""
         # FIELD FORM: day number, hour, minute, second, sub-second are primitive bounded integers, so that every
         # floor / div / mod the code applies to the instant can be read off syntactically (engine._integral_split)
         lo = (_dt.date(ylo, 1, 1) - _dt.date(1970, 1, 1)).days
         hi = (_dt.date(yhi, 12, 31) - _dt.date(1970, 1, 1)).days
         N = e.integer(name + "_day", lo, hi)
+        # res: resolution of the instant ('ms' default via unit_us, 's', 'min', 'h'): coarser fields are the constant 0
         h = e.integer(name + "_h", 0, 23)
-        mi = e.integer(name + "_mi", 0, 59)
-        sec = e.integer(name + "_s", 0, 59)
+        mi = e.integer(name + "_mi", 0, 59) if res not in ("h",) else 0
+        sec = e.integer(name + "_s", 0, 59) if res not in ("h", "min") else 0
         if 10**6 % unit_us:
             raise ModelGap("resolution must divide a second")
-        sub = e.integer(name + "_sub", 0, 10**6 // unit_us - 1) if unit_us < 10**6 else 0
+        sub = e.integer(name + "_sub", 0, 10**6 // unit_us - 1) if (unit_us < 10**6 and res in (None, "ms")) else 0
         tod = ((h * 60 + mi) * 60 + sec) * 10**6 + sub * unit_us
         r = SymDT.from_split(N, tod)
-        e.pm.setdefault("hms_memo", {})[tod.lin.key()] = (h, mi, sec, sub * unit_us)
-        e.pm.setdefault("hms_known", {})[tod.lin.key()] = (tod, (h, mi, sec, sub * unit_us))
+        if isinstance(tod, SymInt):
+            e.pm.setdefault("hms_memo", {})[tod.lin.key()] = (h, mi, sec, sub * unit_us)
+            e.pm.setdefault("hms_known", {})[tod.lin.key()] = (tod, (h, mi, sec, sub * unit_us))
         return r
 
     @staticmethod
